@@ -14,8 +14,24 @@ pub struct Kv {
     pub m: BTreeMap<Vec<u8>, Arc<Vec<u8>>>,
 }
 
+thread_local! {
+    /// storage reads (point reads and iterated records) of the current thread since the last reset: the
+    /// simulator's stand-in for the read part of a gas meter
+    static READS: std::cell::Cell<u64> = const { std::cell::Cell::new(0) };
+}
+pub fn reset_reads() {
+    READS.with(|c| c.set(0));
+}
+pub fn reads() -> u64 {
+    READS.with(|c| c.get())
+}
+fn count_read() {
+    READS.with(|c| c.set(c.get() + 1));
+}
+
 impl Storage for Kv {
     fn get(&self, key: &[u8]) -> Option<Vec<u8>> {
+        count_read();
         self.m.get(key).map(|v| v.as_ref().clone())
     }
     fn range<'a>(
@@ -37,7 +53,10 @@ impl Storage for Kv {
                 return Box::new(std::iter::empty());
             }
         }
-        let it = self.m.range((lo, hi)).map(|(k, v)| (k.clone(), v.as_ref().clone()));
+        let it = self.m.range((lo, hi)).map(|(k, v)| {
+            count_read();
+            (k.clone(), v.as_ref().clone())
+        });
         match order {
             Order::Ascending => Box::new(it),
             Order::Descending => Box::new(it.rev()),
